@@ -1,8 +1,15 @@
 (* C18: the vectored ("bulk") appends, as repaired, build exactly the frames the contiguous appends build for the
    concatenation of the buffers; every copy they issue lies inside the payload area of the frame it belongs to.
    The loops of the unrepaired repository are shown to write outside the claimed range / ask for a negative copy. *)
-Require Import V.Base.MachineInt V.Generated.GenConsts V.Model.Descriptor V.Model.LogBase V.Model.Appender
-               V.Model.ExclAppender V.Model.Publication V.Proofs.DescriptorProofs V.Proofs.AppenderProofs.
+Require Import V.Base.MachineInt.
+Require Import V.Generated.GenConsts.
+Require Import V.Model.Descriptor.
+Require Import V.Model.LogBase.
+Require Import V.Model.Appender.
+Require Import V.Model.ExclAppender.
+Require Import V.Model.Publication.
+Require Import V.Proofs.DescriptorProofs.
+Require Import V.Proofs.AppenderProofs.
 From Coq Require Import ZifyBool.
 Open Scope Z_scope.
 
